@@ -122,8 +122,13 @@ Proof.
   congruence.
 Qed.
 
-Lemma commit_upd_fc (m : node) a b : n_commit (m <| n_followers := a |> <| n_conf := b |>) = n_commit m.
-Proof. reflexivity. Qed.
+Lemma proj_new_followers {A} (P : node -> A) nx ids :
+  (forall m id, P (new_follower m id nx) = P m) ->
+  forall n, P (fold_left (fun m id => new_follower m id nx) ids n) = P n.
+Proof.
+  intros HP. induction ids as [|id ids IH]; intros n; cbn [fold_left]; [reflexivity|].
+  rewrite IH. apply HP.
+Qed.
 Lemma commit_reset m : n_commit (reset_snapshot_files m) = n_commit m. Proof. reflexivity. Qed.
 
 Lemma commit_next_configuration now n c : n_commit (next_configuration now n c) = n_commit n.
@@ -133,7 +138,9 @@ Proof.
   assert (H : n_commit n1 = n_commit n).
   { subst n1. destruct (is_member nx (n_id n)); [reflexivity|]. rewrite commit_reset.
     destruct (role_eqb (n_role n) Leader); [apply commit_stepdown|reflexivity]. }
-  clearbody n1. rewrite commit_upd_fc. exact H.
+  clearbody n1.
+  match goal with |- n_commit (fold_left ?f ?l ?n2 <| n_conf := ?c |>) = _ =>
+    change (n_commit (fold_left f l n2) = n_commit n); rewrite (proj_new_followers n_commit 0 l); [exact H|reflexivity] end.
 Qed.
 
 Lemma commit_ae_scan now es : forall n n4 l, ae_scan now n es = Some (n4, l) -> n_commit n4 = n_commit n.
@@ -260,8 +267,6 @@ Proof.
   exact Ha.
 Qed.
 
-Lemma lfb_upd_fc (m : node) a b : lfb (m <| n_followers := a |> <| n_conf := b |>) = lfb m.
-Proof. reflexivity. Qed.
 
 Lemma lfb_next_configuration now n c : lfb (next_configuration now n c) = lfb n.
 Proof.
@@ -271,7 +276,9 @@ Proof.
   { subst n1. destruct (is_member nx (n_id n)); [reflexivity|].
     rewrite (lfb_same_core _ _ (sc_reset_snapshot_files _)).
     destruct (role_eqb (n_role n) Leader); [apply lfb_stepdown|reflexivity]. }
-  clearbody n1. rewrite lfb_upd_fc. exact H.
+  clearbody n1.
+  match goal with |- lfb (fold_left ?f ?l ?n2 <| n_conf := ?c |>) = _ =>
+    change (lfb (fold_left f l n2) = lfb n); rewrite (proj_new_followers lfb 0 l); [exact H|reflexivity] end.
 Qed.
 
 Lemma unlimited_lfb a b : lfb a = lfb b -> unlimited b -> unlimited a.
